@@ -1,7 +1,7 @@
 SPECIFICATION Spec
-CONSTANTS Addrs = {"A1"} Keys = {"K1"} Signers = {"S1", "S2"} OwnSigner = "S1" MaxVer = 0 Datas = {"a"} UData = {"a"}
-          Forged = FALSE Sizes = FALSE Multi = FALSE Base = 2 Scale = 1 MaxRot = 0 MaxClock = 4 InitCloser = 7 MaxCloser = 8
-          MaxIssued = 1 PeerStore = FALSE Locals = TRUE EqReplaces = TRUE OtherTokens = {} MaxStored = 8
+CONSTANTS Addrs = {"A1"} Keys = {"K1"} Signers = {"S1", "S2"} OwnSigner = "S1" MaxVer = 2 Datas = {"a"} UData = {}
+          Forged = FALSE Sizes = FALSE Multi = FALSE Base = 2 Scale = 1 MaxRot = 0 MaxClock = 4 InitCloser = 8 MaxCloser = 8
+          MaxIssued = 1 PeerStore = FALSE Locals = FALSE EqReplaces = TRUE OtherTokens = {} MaxStored = 8
           KeepSecrets = 2 CleanAll = TRUE Validity = 0 RotatePeriod = 0 ExpiredYields = FALSE
 INVARIANT TypeOK
 INVARIANT StoreNeedsOwnFreshToken
